@@ -4,7 +4,7 @@
    stream-level invariant [hon] of the block loop, so that whatever the calls deliver is the
    reference decoding of the successive frames of the consumed input, for every way the input
    arrives (every split into calls, every target alignment, every gap). *)
-From MptV Require Import Base.Mem Base.Tactics Cobs.CobsModel Cobs.DecModel Cobs.EncProofs Cobs.DecProofs
+From MptV Require Import Base.Mem Base.Tactics Cobs.CobsModel Cobs.DecModel Cobs.EncProofs Cobs.EncTheorems Cobs.DecProofs
   Cobs.DecCall.
 Local Open Scope nat_scope.
 
@@ -343,3 +343,108 @@ Proof.
   unfold cinv. cbn [dpos dlen dcurr dmsg dcode]. split; [lia|].
   split; [rewrite splice_length by (cbn [length]; lia); unfold unread in Hk; rewrite skipn_length in Hk; lia|]. auto.
 Qed.
+
+(* ---------- histories of calls on a growing buffer ---------- *)
+(* HCall: one decoder call (any fragment geometry / alignment residues); HFeed: the caller
+   appends received bytes behind the unread input *)
+Inductive hop := HCall (frags res : list nat) | HFeed (more : list byte).
+
+Record hs := mkhs { hs_st : dstate; hs_buf : list byte; hs_msgs : list (list byte); hs_stop : bool }.
+
+(* an error ends the history: nothing is claimed about later calls *)
+Definition hstep (v : variant) (s : hs) (o : hop) : hs :=
+  if hs_stop s then s else
+  match o with
+  | HFeed more => mkhs (hs_st s) (hs_buf s ++ more) (hs_msgs s) false
+  | HCall frags res =>
+    let '(r, st', buf') := dec_call_res v (hs_st s) (hs_buf s) frags res false in
+    match r with
+    | DMsg => mkhs st' buf' (hs_msgs s ++ [decoded st' buf']) false
+    | DMore => mkhs st' buf' (hs_msgs s) false
+    | _ => mkhs st' buf' (hs_msgs s) true
+    end
+  end.
+
+Definition hrun (v : variant) (s : hs) (ops : list hop) : hs := fold_left (hstep v) ops s.
+
+Definition fed (o : hop) : list byte := match o with HFeed more => more | HCall _ _ => [] end.
+
+(* [I]: all input handed over so far (the unread bytes of the start state and everything fed) *)
+Definition hinv (v : variant) (I : list byte) (s : hs) : Prop :=
+  exists C F, frames_of v (hs_msgs s) C /\
+    if hs_stop s then exists rest, I = C ++ rest
+    else I = C ++ F ++ skipn (dcurr (hs_st s)) (hs_buf s) /\ cinv v F (hs_st s) (hs_buf s).
+
+Lemma decoded_app st buf more : dpos st + dlen st <= length buf -> decoded st (buf ++ more) = decoded st buf.
+Proof.
+  intros H. unfold decoded. rewrite skipn_app, firstn_app, skipn_length.
+  replace (dlen st - (length buf - dpos st)) with 0 by lia. cbn [firstn]. apply app_nil_r.
+Qed.
+
+Lemma cinv_feed v F st buf more : cinv v F st buf -> cinv v F st (buf ++ more).
+Proof.
+  intros (G1 & G2 & Hm). split; [assumption|]. split; [rewrite app_length; lia|].
+  destruct (dmsg st); [assumption|]. destruct (dcode st =? 0); [assumption|].
+  rewrite decoded_app by lia. assumption.
+Qed.
+
+Lemma hstep_inv v I s o : hinv v I s -> hinv v (I ++ fed o) (hstep v s o).
+Proof.
+  intros (C & F & Hf & Hs). unfold hstep. destruct (hs_stop s) eqn:Est.
+  - exists C, F. split; [assumption|]. rewrite Est. destruct Hs as (rest & ->).
+    exists (rest ++ fed o). rewrite app_assoc. reflexivity.
+  - destruct Hs as [HI Hc]. destruct o as [frags res|more]; cbn [fed].
+    + rewrite app_nil_r.
+      pose proof (dec_call_honest v F (hs_st s) (hs_buf s) frags res Hc) as Hp.
+      destruct (dec_call_res v (hs_st s) (hs_buf s) frags res false) as [[r st'] buf'].
+      set (unread := skipn (dcurr (hs_st s)) (hs_buf s)) in *.
+      assert (Hsplit : forall k, k <= length unread -> dcurr st' = dcurr (hs_st s) + k ->
+                skipn (dcurr st') buf' = skipn (dcurr st') (hs_buf s) ->
+                unread = firstn k unread ++ skipn (dcurr st') buf').
+      { intros k Hk Hcur Hsk. rewrite Hsk, Hcur.
+        replace (skipn (dcurr (hs_st s) + k) (hs_buf s)) with (skipn k unread) by (unfold unread; apply skipn_skipn').
+        symmetry. apply firstn_skipn. }
+      destruct r as [| |e|]; unfold call_post in Hp; fold unread in Hp.
+      * destruct Hp as (k & body & Hk & Hcur & Hlen & Hsk & Hb & Hsd & Hc' & Hm').
+        exists (C ++ body ++ [0%N]), []. cbn [hs_msgs hs_stop hs_st hs_buf].
+        split; [apply frames_of_snoc; [assumption|assumption|apply (sdec_nozero v body _ Hsd)]|].
+        split; [|assumption]. cbn [app].
+        rewrite HI, (Hsplit k Hk Hcur Hsk). rewrite (app_assoc F), Hb. rewrite <- !app_assoc. reflexivity.
+      * destruct Hp as (k & Hk & Hcur & Hlen & Hsk & Hc').
+        exists C, (F ++ firstn k unread). cbn [hs_msgs hs_stop hs_st hs_buf].
+        split; [assumption|]. split; [|assumption].
+        rewrite HI, (Hsplit k Hk Hcur Hsk) at 1. rewrite <- !app_assoc. reflexivity.
+      * exists C, F. cbn [hs_msgs hs_stop]. split; [assumption|]. eexists. exact HI.
+      * exists C, F. cbn [hs_msgs hs_stop]. split; [assumption|]. eexists. exact HI.
+    + exists C, F. cbn [hs_msgs hs_stop hs_st hs_buf]. split; [assumption|].
+      destruct Hc as (G1 & G2 & Hm). split; [|apply cinv_feed; repeat split; assumption].
+      rewrite skipn_app. replace (dcurr (hs_st s) - length (hs_buf s)) with 0 by lia. cbn [skipn].
+      rewrite HI, <- !app_assoc. reflexivity.
+Qed.
+
+Theorem hrun_inv v : forall ops I s, hinv v I s -> hinv v (I ++ concat (map fed ops)) (hrun v s ops).
+Proof.
+  induction ops as [|o ops IH]; intros I s Hi; cbn [hrun fold_left map concat].
+  - rewrite app_nil_r. exact Hi.
+  - rewrite app_assoc. apply IH. apply hstep_inv. exact Hi.
+Qed.
+
+(* MAIN: start anywhere between messages (e.g. the initial state with any gap), make any calls
+   with any fragment geometry, feed any bytes in any pieces in between: the messages delivered
+   are, in order, the reference decodings of the successive frames at the front of the input *)
+Theorem dec_history_delivers v st0 buf0 ops :
+  cinv v [] st0 buf0 ->
+  let s := hrun v (mkhs st0 buf0 [] false) ops in
+  exists C rest, skipn (dcurr st0) buf0 ++ concat (map fed ops) = C ++ rest /\ frames_of v (hs_msgs s) C.
+Proof.
+  intros Hc s.
+  assert (H0 : hinv v (skipn (dcurr st0) buf0) (mkhs st0 buf0 [] false)).
+  { exists [], []. cbn [hs_msgs hs_stop hs_st hs_buf app]. split; [constructor|]. split; [reflexivity|assumption]. }
+  pose proof (hrun_inv v ops _ _ H0) as (C & F & Hf & Hs). fold s in Hf, Hs.
+  exists C. destruct (hs_stop s).
+  - destruct Hs as (rest & HI). exists rest. split; assumption.
+  - destruct Hs as [HI _]. eexists. split; [exact HI|assumption].
+Qed.
+
+Lemma cinv_init v gap buf : gap <= length buf -> cinv v [] (dinit gap) buf.
+Proof. intros H. unfold cinv, dinit. cbn [dpos dlen dcurr dmsg dcode Nat.eqb]. repeat split; lia. Qed.
